@@ -207,7 +207,7 @@ class Ctx:
         self.coverage[key] = self.coverage.get(key, 0) + n
 
     # ---- Lean
-    def lean_props(self, module, extra_targets=("driver",)):
+    def lean_props(self, module, extra_targets=("driver",), extra_modules=()):
         """build Ecpint.Props.<module>, record one obligation per theorem, audit axioms.
         returns True when everything in the module checks."""
         relfile = "Ecpint/Props/%s.lean" % module
@@ -218,11 +218,18 @@ class Ctx:
         self.log("lake build %s: %s (%.1fs)" % (full, "ok" if ok else "FAILED", time.time() - t))
         decls = theorems_of(os.path.join(LEAN, relfile))
         errs = error_lines(log, relfile)
-        other_fail = (not ok) and not errs
+        # theorems of sub-modules the property module imports (e.g. Props/C12Cases/Part3.lean) are obligations too
+        extra_decls = []
+        for em in extra_modules:
+            rf = em.replace(".", "/") + ".lean"
+            ee = error_lines(log, rf)
+            for name, a, bb in theorems_of(os.path.join(LEAN, rf)):
+                extra_decls.append((name, rf, any(a <= e <= bb for e in ee)))
+        other_fail = (not ok) and not errs and not any(error_lines(log, em.replace(".", "/") + ".lean") for em in extra_modules)
         if not ok:
             self.lean_log = log
             self.log(log[-3000:])
-        names = [d[0] for d in decls]
+        names = [d[0] for d in decls] + [d[0] for d in extra_decls]
         ax = {}
         if ok:
             ax, raw = print_axioms(full, names)
@@ -245,7 +252,22 @@ class Ctx:
                 detail = "elaborated; module has errors elsewhere"
             self.obligation("theorem %s" % name, not bad_here, detail)
             good = good and not bad_here
-        if not ok and not errs:
+        for name, rf, bad_here in extra_decls:
+            detail = ""
+            if bad_here or other_fail:
+                bad_here, detail = True, "does not elaborate (see build log)" if bad_here else "the module does not build"
+            elif ok:
+                if name not in ax:
+                    bad_here, detail = True, "no #print axioms output"
+                elif not set(ax[name]) <= STD_AXIOMS:
+                    bad_here, detail = True, "non-standard axioms: %s" % ax[name]
+                else:
+                    detail = "axioms: %s" % (", ".join(ax[name]) or "none")
+            else:
+                detail = "elaborated; another file of the module has errors"
+            self.obligation("theorem %s (%s)" % (name, rf), not bad_here, detail)
+            good = good and not bad_here
+        if not ok and not errs and not any(d[2] for d in extra_decls):
             self.obligation("lake build %s" % full, False, log[-1500:])
             good = False
         elif not ok:
